@@ -419,6 +419,8 @@ impl OsIpcSender {
         let (dedicated_tx, dedicated_rx) = channel()?;
         // Extract FD handle without consuming the Receiver, so the FD doesn't get closed.
         fds.push(dedicated_rx.fd.get());
+        // Our copy of the receiving end is only needed until the first fragment has handed it over.
+        let mut dedicated_rx = Some(dedicated_rx);
 
         // Split up the packet into fragments.
         let mut byte_position = 0;
@@ -453,6 +455,12 @@ impl OsIpcSender {
                 }
             }
 
+            if byte_position == 0 {
+                // The receiver now owns the other end of the dedicated channel.
+                // Close our copy, so that followup sends fail instead of blocking forever
+                // once the receiver has gone away.
+                drop(dedicated_rx.take());
+            }
             byte_position = end_byte_position;
         }
 
